@@ -1,6 +1,29 @@
+import ALock.AtomTrace
+
 /-! Formatting helpers shared by the per-primitive driver modules. -/
 
 namespace ALock.Drv
+open ALock
+
+def opName : AOp → String
+  | .load => "load" | .store => "store" | .cas => "cas" | .casw => "casw"
+  | .fadd => "fadd" | .fsub => "fsub" | .for_ => "for" | .fand => "fand"
+
+def fmtAtom (x : Atom) : String :=
+  let args := match x.op with
+    | .load => ""
+    | .cas | .casw => s!"{x.a},{x.b}"
+    | _ => s!"{x.a}"
+  let ret := match x.ret with
+    | .none => ""
+    | .val v => s!"={v}"
+    | .ok v => s!"=ok{v}"
+    | .err v => s!"=err{v}"
+  s!"w{x.w}:{opName x.op}({args};{x.ord}){ret}"
+
+/-- the `at=` field: the atomic operations of the step, `-` if none -/
+def fmtAtoms (l : List Atom) : String :=
+  if l.isEmpty then "-" else ",".intercalate (l.map fmtAtom)
 
 def fmtList (l : List Nat) : String := ",".intercalate (l.map toString)
 
